@@ -10,7 +10,7 @@ CHECKS = {
                     'length residues, leading zeros) are reachable by construction.'),
         technique='property-based differential testing (rapid) + exhaustive enumeration of length residues against a reference AES-IGE',
         quick=dict(shards=4, checks=6000),
-        thorough=dict(shards=16, checks=60000, budget_s=3000),
+        thorough=dict(shards=16, checks=240000, budget_s=3000),
         rule=('rapid-generated + enumerated cases of three kinds: raw (32-byte key, 32-byte IV, input of 0..N bytes) compared '
               'block-by-block with a textbook AES-IGE written on crypto/aes, plus refusal of length 0 / non-multiples of 16 and '
               'caller-buffer immutability; msg (256-byte auth key, message) for the message-level wrapper in both directions '
@@ -26,7 +26,7 @@ CHECKS = {
     'C03': dict(
         pkg='./c03', test='TestC03', level='exploration',
         quick=dict(shards=4, checks=5000),
-        thorough=dict(shards=16, checks=120000, budget_s=3000),
+        thorough=dict(shards=16, checks=360000, budget_s=3000),
         level_text=('Differential check of the envelope in both directions against an independent MTProto-1.0 implementation '
                     '(KDF, AES-IGE, layout) acting as conformant server: generated keys/salts/ids/bodies plus every body length '
                     '0..1100 (0..65536 thorough) once per direction.'),
@@ -42,7 +42,7 @@ CHECKS = {
     'C04': dict(
         pkg='./c04', test='TestC04', level='fault_enumeration', helpers={'vdriver': './cmd/vdriver'},
         quick=dict(shards=4, checks=60, extra=[dict(test='TestC04Client', checks=30, shards=4)]),
-        thorough=dict(shards=12, checks=1500, budget_s=3000, fuzz=[dict(target='FuzzDeserialize', time='90s', wall=600)], extra=[dict(test='TestC04Client', checks=400, shards=4)]),
+        thorough=dict(shards=12, checks=4500, budget_s=3000, fuzz=[dict(target='FuzzDeserialize', time='90s', wall=600)], extra=[dict(test='TestC04Client', checks=800, shards=4)]),
         level_text=('Every generated valid packet is subjected to the enumerated fault list: all single-bit flips (exhaustive for packets '
                     '<= 256 bytes), all truncation lengths, extension, re-keying, reflection, garbage bodies, attacker-with-key declared '
                     'lengths {-2^31,-1,len-33..len+33,2^30,2^31-1}, wrong parity, inconsistent plain packets; the expected verdict is '
@@ -76,7 +76,7 @@ CHECKS = {
     'C17': dict(
         pkg='./c17', test='TestC17', level='exploration', helpers={'vdriver': './cmd/vdriver'},
         quick=dict(shards=4, checks=25000, extra=[dict(test='TestC17Client', checks=25, shards=4)]),
-        thorough=dict(shards=12, checks=400000, budget_s=3000, extra=[dict(test='TestC17Client', checks=500, shards=4)]),
+        thorough=dict(shards=12, checks=2000000, budget_s=3000, extra=[dict(test='TestC17Client', checks=1000, shards=4)]),
         level_text=('Model-based: every generated (code, text) is compared with a restated model of the prefix/suffix table and the catalogue '
                     '(parsed from the text of errors.go only to know which names are documented); all catalogued names and 15 rows x 18 '
                     'parameters are enumerated. Client-level delivery/migration scenarios run against the reference server (see DESIGN).'),
@@ -128,7 +128,7 @@ CHECKS = {
     'C08': dict(
         pkg='./c08', test='TestC08', level='exploration',
         quick=dict(shards=8, checks=150),
-        thorough=dict(shards=16, checks=1500, budget_s=3000),
+        thorough=dict(shards=16, checks=6000, budget_s=3000),
         level_text=('Format: generated message sequences through mode.New/WriteMsg and Detect/ReadMsg over an exact-count in-memory pipe are compared '
                     'byte-for-byte with a reference framer; every length 0..1024 step 4 per mode is enumerated. Segmentation: a listener plays a '
                     'reference-framed stream over real loopback TCP cut by a generated composition (every composition of short streams / of the first '
@@ -146,7 +146,7 @@ CHECKS = {
     'C01': dict(
         pkg='./c01', test='TestC01', level='exploration',
         quick=dict(shards=4, checks=3000),
-        thorough=dict(shards=16, checks=60000, budget_s=3000),
+        thorough=dict(shards=16, checks=360000, budget_s=3000),
         level_text=('Registry-directed round trip: for every registered constructor, hand-written wrapper and enum member (found through a tag-guarded export of '
                     'the registry) values are built by reflection - all presence patterns of all multi-field flag groups enumerated, boundary string lengths, '
                     'nested interface/vector values, int/long/double extremes, 128/256-bit integers with leading zeros - and must survive Marshal -> Decode(named type) '
@@ -185,7 +185,7 @@ CHECKS = {
     'C02': dict(
         pkg='./c02', test='TestC02', level='exploration',
         quick=dict(shards=4, checks=2500),
-        thorough=dict(shards=16, checks=40000, budget_s=3000),
+        thorough=dict(shards=16, checks=120000, budget_s=3000),
         level_text=('Schema-directed differential: for every definition of api_latest.tl and the wire-used definitions of mtproto.tl an abstract value is generated '
                     'from the schema text, serialised by an independent TL encoder, bridged into the registered Go type by field position only, and (a) tl.Marshal '
                     'must produce exactly the reference bytes (or refuse a >= 2^24-byte string), (b) the reference bytes must decode (unknown object and named type) '
@@ -224,7 +224,7 @@ CHECKS = {
     'C14': dict(
         module='harness-tlgen', pkg='./c14', test='TestC14', level='exploration',
         quick=dict(shards=4, checks=40, budget_s=900),
-        thorough=dict(shards=16, checks=300, budget_s=3300),
+        thorough=dict(shards=16, checks=1200, budget_s=3300),
         level_text=('Grammar-generated schemas of the documented TL subset carry their own model: (1) tlparser.ParseSchema must extract exactly the declared names, ids, '
                     'parameters and result types; (2) generating four times from the text and three times from one parsed schema object gives byte-identical files, whether the output directory is empty or already holds longer or shorter files of the same names; (3) every generated package of a batch is compiled in a scratch '
                     'module; (4) a program linking the compiled packages compares the registry each declares with an independent reading of the schema text (same '
@@ -263,7 +263,7 @@ CHECKS = {
     'C07': dict(
         pkg='./c07', test='TestC07', level='fault_enumeration', helpers={'vdriver': './cmd/vdriver'},
         quick=dict(shards=16, checks=3, budget_s=900),
-        thorough=dict(shards=16, checks=150, budget_s=3400),
+        thorough=dict(shards=16, checks=600, budget_s=3400),
         level_text=('An otherwise conformant key exchange (real client in a fresh process, reference server) is run with exactly one fault of the statement\'s list: nonce / '
                     'server_nonce echoed wrongly in resPQ, server_DH_params_ok, the decrypted server_DH_inner_data and dh_gen_ok (bit flip, random value, the other nonce, '
                     'zero); fingerprint list without the configured key; encrypted DH answer whose SHA-1 prefix does not match (prefix or content bit flipped); wrong '
@@ -299,7 +299,7 @@ CHECKS = {
     'C09': dict(
         pkg='./c09', test='TestC09', level='exploration', helpers={'vdriver': './cmd/vdriver'},
         quick=dict(shards=8, checks=40, budget_s=900),
-        thorough=dict(shards=16, checks=1300, budget_s=3400),
+        thorough=dict(shards=16, checks=3900, budget_s=3400),
         level_text=('Generated histories against the reference server, real client in a fresh process per case: 1..8 goroutines issue 1..4 requests each (results: object, Bool, '
                     'Vector<int>, Vector<long>, Vector<User>; every request carries a unique tag in an argument), the server answers each round in a drawn permutation, partitioned '
                     'into plain messages and msg_containers, any subset gzip-packed, some as rpc_error. Each call must return exactly the value built for its own tag in the Go kind '
@@ -316,7 +316,7 @@ CHECKS = {
     'C10': dict(
         pkg='./c10', test='TestC10', level='exploration', helpers={'vdriver': './cmd/vdriver'},
         quick=dict(shards=8, checks=30, budget_s=900, extra=[dict(test='TestC10MsgID', checks=1, shards=1)]),
-        thorough=dict(shards=16, checks=700, budget_s=3400, extra=[dict(test='TestC10MsgID', checks=1, shards=2)]),
+        thorough=dict(shards=16, checks=2100, budget_s=3400, extra=[dict(test='TestC10MsgID', checks=1, shards=2)]),
         level_text=('Invariants over the reference server\'s arrival-ordered log of everything the real client wrote in generated histories: 1..8 concurrent callers, server '
                     'answers in drawn orders/containers/gzip, server-initiated content-related (updates) and service (pong, acks, state info) messages plain and in containers, '
                     'and a directed inversion attempt (one sender held right after it took its msg_id until another sender\'s message has reached the server). Checked: msg_id '
@@ -334,7 +334,7 @@ CHECKS = {
     'C11': dict(
         pkg='./c11', test='TestC11', level='exploration', helpers={'vdriver': './cmd/vdriver'},
         quick=dict(shards=8, checks=25, budget_s=900),
-        thorough=dict(shards=16, checks=600, budget_s=3400),
+        thorough=dict(shards=16, checks=2400, budget_s=3400),
         level_text=('Generated and enumerated salt-rotation histories against the reference server (real client, fresh process per case): session freshly keyed in the same process '
                     'or resumed; per rotation some requests accepted before it (answers kept back) and some rejected by it; 1..3 rotations, pending requests carried across rotations, '
                     'salts announced by bad_server_salt or new_session_created; answers in drawn orders. Checked on the server log, the client\'s hook log and the session file: '
@@ -352,7 +352,7 @@ CHECKS = {
     'C16': dict(
         pkg='./c16', test='TestC16', level='exploration', helpers={'vdriver': './cmd/vdriver'},
         quick=dict(shards=8, checks=25, budget_s=900),
-        thorough=dict(shards=16, checks=600, budget_s=3400),
+        thorough=dict(shards=16, checks=2400, budget_s=3400),
         level_text=('Generated histories of 1..12 server-to-client events on a live client (fresh process per case, drained warning channel, one registered handler), each followed '
                     'by a probe request that must complete: every MTProto service constructor the client can be sent (pong, msgs_ack, new_session_created, bad_msg_notification, '
                     'msgs_state_info, msgs_all_info, msg_detailed_info, msg_new_detailed_info, future_salts, bad_server_salt for an unknown or an already answered message, a silent salt rotation), rpc_result / rpc_error for unknown ids, a repeated result for an answered '
